@@ -560,167 +560,104 @@ Require Verif.Tie.Semver.
 Require Verif.Tie.Vers.Code.
 Require Verif.Tie.Vers.Constraints.
 Require Verif.Tie.Vers.CoreAlternating.
+Require Verif.Tie.Vers.CoreDispatch.
 Require Verif.Tie.Vers.CoreGroup.
+Require Verif.Tie.Vers.CoreGroupTie.
+Require Verif.Tie.Vers.CoreToRanges.
 Require Verif.Tie.Vers.Printers.
 Require Verif.Tie.Vers.Pypi.
 Require Verif.Tie.Vers.Texts.
 Require Verif.Tie.Vers.Valid.
-Definition C04_tie_alpine_compareInt := Verif.Tie.Alpine.tie_alpine_compareInt.
-Print Assumptions C04_tie_alpine_compareInt.
-Definition C04_tie_alpine_compareLetters := Verif.Tie.Alpine.tie_alpine_compareLetters.
-Print Assumptions C04_tie_alpine_compareLetters.
-Definition C04_tie_alpine_VersionRange_String := Verif.Tie.AlpineRange.tie_alpine_VersionRange_String.
-Print Assumptions C04_tie_alpine_VersionRange_String.
-Definition C04_tie_alpine_VersionRange_Contains := Verif.Tie.AlpineRange.tie_alpine_VersionRange_Contains.
-Print Assumptions C04_tie_alpine_VersionRange_Contains.
-Definition C04_tie_cargo_compareInt := Verif.Tie.Cargo.tie_cargo_compareInt.
-Print Assumptions C04_tie_cargo_compareInt.
-Definition C04_tie_cargo_compare := Verif.Tie.Cargo.tie_cargo_compare.
-Print Assumptions C04_tie_cargo_compare.
-Definition C04_tie_cargo_caret := Verif.Tie.CargoRange.tie_cargo_caret.
-Print Assumptions C04_tie_cargo_caret.
-Definition C04_tie_cargo_tilde := Verif.Tie.CargoRange.tie_cargo_tilde.
-Print Assumptions C04_tie_cargo_tilde.
-Definition C04_tie_cargo_satisfiesConstraint := Verif.Tie.CargoRange.tie_cargo_satisfiesConstraint.
-Print Assumptions C04_tie_cargo_satisfiesConstraint.
-Definition C04_tie_debian_compare := Verif.Tie.Debian.tie_debian_compare.
-Print Assumptions C04_tie_debian_compare.
-Definition C04_tie_debian_satisfiesConstraint := Verif.Tie.DebianRange.tie_debian_satisfiesConstraint.
-Print Assumptions C04_tie_debian_satisfiesConstraint.
-Definition C04_tie_debian_satisfiesConstraint_model := Verif.Tie.DebianRange.tie_debian_satisfiesConstraint_model.
-Print Assumptions C04_tie_debian_satisfiesConstraint_model.
-Definition C04_tie_debian_contains := Verif.Tie.DebianRange.tie_debian_contains.
-Print Assumptions C04_tie_debian_contains.
-Definition C04_tie_gem_compareInt := Verif.Tie.Gem.tie_gem_compareInt.
-Print Assumptions C04_tie_gem_compareInt.
-Definition C04_tie_gem_compareSegments := Verif.Tie.Gem.tie_gem_compareSegments.
-Print Assumptions C04_tie_gem_compareSegments.
-Definition C04_tie_gem_VersionRange_String := Verif.Tie.GemRange.tie_gem_VersionRange_String.
-Print Assumptions C04_tie_gem_VersionRange_String.
-Definition C04_tie_gem_VersionRange_Contains := Verif.Tie.GemRange.tie_gem_VersionRange_Contains.
-Print Assumptions C04_tie_gem_VersionRange_Contains.
-Definition C04_tie_golang_compareInt := Verif.Tie.Golang.tie_golang_compareInt.
-Print Assumptions C04_tie_golang_compareInt.
-Definition C04_tie_golang_Version_Compare := Verif.Tie.Golang.tie_golang_Version_Compare.
-Print Assumptions C04_tie_golang_Version_Compare.
-Definition C04_tie_golang_VersionRange_String := Verif.Tie.GolangRange.tie_golang_VersionRange_String.
-Print Assumptions C04_tie_golang_VersionRange_String.
-Definition C04_tie_golang_VersionRange_Contains := Verif.Tie.GolangRange.tie_golang_VersionRange_Contains.
-Print Assumptions C04_tie_golang_VersionRange_Contains.
-Definition C04_tie_maven_satisfiesConstraint := Verif.Tie.MavenRange.tie_maven_satisfiesConstraint.
-Print Assumptions C04_tie_maven_satisfiesConstraint.
-Definition C04_tie_maven_contains := Verif.Tie.MavenRange.tie_maven_contains.
-Print Assumptions C04_tie_maven_contains.
-Definition C04_tie_npm_compareInt := Verif.Tie.Npm.tie_npm_compareInt.
-Print Assumptions C04_tie_npm_compareInt.
-Definition C04_tie_npm_compare := Verif.Tie.Npm.tie_npm_compare.
-Print Assumptions C04_tie_npm_compare.
-Definition C04_tie_nuget_compareInt := Verif.Tie.Nuget.tie_nuget_compareInt.
-Print Assumptions C04_tie_nuget_compareInt.
-Definition C04_tie_nuget_compare := Verif.Tie.Nuget.tie_nuget_compare.
-Print Assumptions C04_tie_nuget_compare.
-Definition C04_tie_nuget_matches := Verif.Tie.NugetRange.tie_nuget_matches.
-Print Assumptions C04_tie_nuget_matches.
-Definition C04_tie_nuget_matches_model := Verif.Tie.NugetRange.tie_nuget_matches_model.
-Print Assumptions C04_tie_nuget_matches_model.
-Definition C04_tie_nuget_contains := Verif.Tie.NugetRange.tie_nuget_contains.
-Print Assumptions C04_tie_nuget_contains.
-Definition C04_tie_pypi_compareInt := Verif.Tie.Pypi.tie_pypi_compareInt.
-Print Assumptions C04_tie_pypi_compareInt.
-Definition C04_tie_pypi_normalizePrereleaseType := Verif.Tie.Pypi.tie_pypi_normalizePrereleaseType.
-Print Assumptions C04_tie_pypi_normalizePrereleaseType.
-Definition C04_tie_pypi_comparePrereleases := Verif.Tie.Pypi.tie_pypi_comparePrereleases.
-Print Assumptions C04_tie_pypi_comparePrereleases.
-Definition C04_tie_pypi_comparePostReleases := Verif.Tie.Pypi.tie_pypi_comparePostReleases.
-Print Assumptions C04_tie_pypi_comparePostReleases.
-Definition C04_tie_pypi_compareDevReleases := Verif.Tie.Pypi.tie_pypi_compareDevReleases.
-Print Assumptions C04_tie_pypi_compareDevReleases.
-Definition C04_tie_pypi_Version_Compare := Verif.Tie.Pypi.tie_pypi_Version_Compare.
-Print Assumptions C04_tie_pypi_Version_Compare.
-Definition C04_tie_pypi_VersionRange_String := Verif.Tie.PypiRange.tie_pypi_VersionRange_String.
-Print Assumptions C04_tie_pypi_VersionRange_String.
-Definition C04_tie_pypi_VersionRange_Contains := Verif.Tie.PypiRange.tie_pypi_VersionRange_Contains.
-Print Assumptions C04_tie_pypi_VersionRange_Contains.
-Definition C04_tie_rpm_compare := Verif.Tie.Rpm.tie_rpm_compare.
-Print Assumptions C04_tie_rpm_compare.
-Definition C04_tie_rpm_satisfiesRPMConstraint := Verif.Tie.RpmRange.tie_rpm_satisfiesRPMConstraint.
-Print Assumptions C04_tie_rpm_satisfiesRPMConstraint.
-Definition C04_tie_rpm_satisfiesRPMConstraint_model := Verif.Tie.RpmRange.tie_rpm_satisfiesRPMConstraint_model.
-Print Assumptions C04_tie_rpm_satisfiesRPMConstraint_model.
-Definition C04_tie_rpm_contains := Verif.Tie.RpmRange.tie_rpm_contains.
-Print Assumptions C04_tie_rpm_contains.
-Definition C04_tie_semver_compareInt := Verif.Tie.Semver.tie_semver_compareInt.
-Print Assumptions C04_tie_semver_compareInt.
-Definition C04_tie_semver_compare := Verif.Tie.Semver.tie_semver_compare.
-Print Assumptions C04_tie_semver_compare.
-Definition C04_tie_shouldMergeConstraints_tie := Verif.Tie.Vers.Code.shouldMergeConstraints_tie.
-Print Assumptions C04_tie_shouldMergeConstraints_tie.
-Definition C04_tie_ensureVPrefix_tie := Verif.Tie.Vers.Code.ensureVPrefix_tie.
-Print Assumptions C04_tie_ensureVPrefix_tie.
-Definition C04_tie_parseConstraint_tie := Verif.Tie.Vers.Constraints.parseConstraint_tie.
-Print Assumptions C04_tie_parseConstraint_tie.
-Definition C04_tie_parseConstraint_finished := Verif.Tie.Vers.Constraints.parseConstraint_finished.
-Print Assumptions C04_tie_parseConstraint_finished.
-Definition C04_tie_parseConstraints_tie := Verif.Tie.Vers.Constraints.parseConstraints_tie.
-Print Assumptions C04_tie_parseConstraints_tie.
-Definition C04_tie_parseConstraints_finished := Verif.Tie.Vers.Constraints.parseConstraints_finished.
-Print Assumptions C04_tie_parseConstraints_finished.
-Definition C04_tie_parseConstraints_normalize := Verif.Tie.Vers.Constraints.parseConstraints_normalize.
-Print Assumptions C04_tie_parseConstraints_normalize.
-Definition C04_tie_alternatingIntervals_no_panic := Verif.Tie.Vers.CoreAlternating.alternatingIntervals_no_panic.
-Print Assumptions C04_tie_alternatingIntervals_no_panic.
-Definition C04_tie_alternatingIntervals_total := Verif.Tie.Vers.CoreAlternating.alternatingIntervals_total.
-Print Assumptions C04_tie_alternatingIntervals_total.
-Definition C04_tie_groupConstraintsIntoIntervals_no_panic := Verif.Tie.Vers.CoreGroup.groupConstraintsIntoIntervals_no_panic.
-Print Assumptions C04_tie_groupConstraintsIntoIntervals_no_panic.
-Definition C04_tie_groupConstraintsIntoIntervals_total := Verif.Tie.Vers.CoreGroup.groupConstraintsIntoIntervals_total.
-Print Assumptions C04_tie_groupConstraintsIntoIntervals_total.
-Definition C04_tie_alpine_printer_tie := Verif.Tie.Vers.Printers.alpine_printer_tie.
-Print Assumptions C04_tie_alpine_printer_tie.
-Definition C04_tie_cargo_printer_tie := Verif.Tie.Vers.Printers.cargo_printer_tie.
-Print Assumptions C04_tie_cargo_printer_tie.
-Definition C04_tie_debian_printer_tie := Verif.Tie.Vers.Printers.debian_printer_tie.
-Print Assumptions C04_tie_debian_printer_tie.
-Definition C04_tie_gem_printer_tie := Verif.Tie.Vers.Printers.gem_printer_tie.
-Print Assumptions C04_tie_gem_printer_tie.
-Definition C04_tie_golang_printer_tie := Verif.Tie.Vers.Printers.golang_printer_tie.
-Print Assumptions C04_tie_golang_printer_tie.
-Definition C04_tie_maven_printer_tie := Verif.Tie.Vers.Printers.maven_printer_tie.
-Print Assumptions C04_tie_maven_printer_tie.
-Definition C04_tie_npm_printer_tie := Verif.Tie.Vers.Printers.npm_printer_tie.
-Print Assumptions C04_tie_npm_printer_tie.
-Definition C04_tie_nuget_printer_tie := Verif.Tie.Vers.Printers.nuget_printer_tie.
-Print Assumptions C04_tie_nuget_printer_tie.
-Definition C04_tie_pypi_printer_tie := Verif.Tie.Vers.Printers.pypi_printer_tie.
-Print Assumptions C04_tie_pypi_printer_tie.
-Definition C04_tie_rpm_printer_tie := Verif.Tie.Vers.Printers.rpm_printer_tie.
-Print Assumptions C04_tie_rpm_printer_tie.
-Definition C04_tie_semver_printer_tie := Verif.Tie.Vers.Printers.semver_printer_tie.
-Print Assumptions C04_tie_semver_printer_tie.
-Definition C04_tie_printers_keys := Verif.Tie.Vers.Printers.printers_keys.
-Print Assumptions C04_tie_printers_keys.
-Definition C04_tie_printers_match_style_table := Verif.Tie.Vers.Printers.printers_match_style_table.
-Print Assumptions C04_tie_printers_match_style_table.
-Definition C04_tie_printers_on_model_interval := Verif.Tie.Vers.Printers.printers_on_model_interval.
-Print Assumptions C04_tie_printers_on_model_interval.
-Definition C04_tie_containsPrereleaseMarkers_tie := Verif.Tie.Vers.Pypi.containsPrereleaseMarkers_tie.
-Print Assumptions C04_tie_containsPrereleaseMarkers_tie.
-Definition C04_tie_containsPrereleaseMarkers_finished := Verif.Tie.Vers.Pypi.containsPrereleaseMarkers_finished.
-Print Assumptions C04_tie_containsPrereleaseMarkers_finished.
-Definition C04_tie_constraintsIncludePrerelease_finished := Verif.Tie.Vers.Pypi.constraintsIncludePrerelease_finished.
-Print Assumptions C04_tie_constraintsIncludePrerelease_finished.
-Definition C04_tie_constraintsIncludePrerelease_tie := Verif.Tie.Vers.Pypi.constraintsIncludePrerelease_tie.
-Print Assumptions C04_tie_constraintsIncludePrerelease_tie.
-Definition C04_tie_printers_texts := Verif.Tie.Vers.Texts.printers_texts.
-Print Assumptions C04_tie_printers_texts.
-Definition C04_tie_printers_texts_normalize := Verif.Tie.Vers.Texts.printers_texts_normalize.
-Print Assumptions C04_tie_printers_texts_normalize.
-Definition C04_tie_valid_tie := Verif.Tie.Vers.Valid.valid_tie.
-Print Assumptions C04_tie_valid_tie.
-Definition C04_tie_valid_finished := Verif.Tie.Vers.Valid.valid_finished.
-Print Assumptions C04_tie_valid_finished.
-Definition C04_tie_scheme_tie := Verif.Tie.Vers.Valid.scheme_tie.
-Print Assumptions C04_tie_scheme_tie.
-Definition C04_tie_scheme_finished := Verif.Tie.Vers.Valid.scheme_finished.
-Print Assumptions C04_tie_scheme_finished.
+Definition C04_tie_alpine_compareInt := @Verif.Tie.Alpine.tie_alpine_compareInt.
+Definition C04_tie_alpine_compareLetters := @Verif.Tie.Alpine.tie_alpine_compareLetters.
+Definition C04_tie_alpine_VersionRange_String := @Verif.Tie.AlpineRange.tie_alpine_VersionRange_String.
+Definition C04_tie_alpine_VersionRange_Contains := @Verif.Tie.AlpineRange.tie_alpine_VersionRange_Contains.
+Definition C04_tie_cargo_compareInt := @Verif.Tie.Cargo.tie_cargo_compareInt.
+Definition C04_tie_cargo_compare := @Verif.Tie.Cargo.tie_cargo_compare.
+Definition C04_tie_cargo_caret := @Verif.Tie.CargoRange.tie_cargo_caret.
+Definition C04_tie_cargo_tilde := @Verif.Tie.CargoRange.tie_cargo_tilde.
+Definition C04_tie_cargo_satisfiesConstraint := @Verif.Tie.CargoRange.tie_cargo_satisfiesConstraint.
+Definition C04_tie_debian_compare := @Verif.Tie.Debian.tie_debian_compare.
+Definition C04_tie_debian_satisfiesConstraint := @Verif.Tie.DebianRange.tie_debian_satisfiesConstraint.
+Definition C04_tie_debian_satisfiesConstraint_model := @Verif.Tie.DebianRange.tie_debian_satisfiesConstraint_model.
+Definition C04_tie_debian_contains := @Verif.Tie.DebianRange.tie_debian_contains.
+Definition C04_tie_gem_compareInt := @Verif.Tie.Gem.tie_gem_compareInt.
+Definition C04_tie_gem_compareSegments := @Verif.Tie.Gem.tie_gem_compareSegments.
+Definition C04_tie_gem_VersionRange_String := @Verif.Tie.GemRange.tie_gem_VersionRange_String.
+Definition C04_tie_gem_VersionRange_Contains := @Verif.Tie.GemRange.tie_gem_VersionRange_Contains.
+Definition C04_tie_golang_compareInt := @Verif.Tie.Golang.tie_golang_compareInt.
+Definition C04_tie_golang_Version_Compare := @Verif.Tie.Golang.tie_golang_Version_Compare.
+Definition C04_tie_golang_VersionRange_String := @Verif.Tie.GolangRange.tie_golang_VersionRange_String.
+Definition C04_tie_golang_VersionRange_Contains := @Verif.Tie.GolangRange.tie_golang_VersionRange_Contains.
+Definition C04_tie_maven_satisfiesConstraint := @Verif.Tie.MavenRange.tie_maven_satisfiesConstraint.
+Definition C04_tie_maven_contains := @Verif.Tie.MavenRange.tie_maven_contains.
+Definition C04_tie_npm_compareInt := @Verif.Tie.Npm.tie_npm_compareInt.
+Definition C04_tie_npm_compare := @Verif.Tie.Npm.tie_npm_compare.
+Definition C04_tie_nuget_compareInt := @Verif.Tie.Nuget.tie_nuget_compareInt.
+Definition C04_tie_nuget_compare := @Verif.Tie.Nuget.tie_nuget_compare.
+Definition C04_tie_nuget_matches := @Verif.Tie.NugetRange.tie_nuget_matches.
+Definition C04_tie_nuget_matches_model := @Verif.Tie.NugetRange.tie_nuget_matches_model.
+Definition C04_tie_nuget_contains := @Verif.Tie.NugetRange.tie_nuget_contains.
+Definition C04_tie_pypi_compareInt := @Verif.Tie.Pypi.tie_pypi_compareInt.
+Definition C04_tie_pypi_normalizePrereleaseType := @Verif.Tie.Pypi.tie_pypi_normalizePrereleaseType.
+Definition C04_tie_pypi_comparePrereleases := @Verif.Tie.Pypi.tie_pypi_comparePrereleases.
+Definition C04_tie_pypi_comparePostReleases := @Verif.Tie.Pypi.tie_pypi_comparePostReleases.
+Definition C04_tie_pypi_compareDevReleases := @Verif.Tie.Pypi.tie_pypi_compareDevReleases.
+Definition C04_tie_pypi_Version_Compare := @Verif.Tie.Pypi.tie_pypi_Version_Compare.
+Definition C04_tie_pypi_VersionRange_String := @Verif.Tie.PypiRange.tie_pypi_VersionRange_String.
+Definition C04_tie_pypi_VersionRange_Contains := @Verif.Tie.PypiRange.tie_pypi_VersionRange_Contains.
+Definition C04_tie_rpm_compare := @Verif.Tie.Rpm.tie_rpm_compare.
+Definition C04_tie_rpm_satisfiesRPMConstraint := @Verif.Tie.RpmRange.tie_rpm_satisfiesRPMConstraint.
+Definition C04_tie_rpm_satisfiesRPMConstraint_model := @Verif.Tie.RpmRange.tie_rpm_satisfiesRPMConstraint_model.
+Definition C04_tie_rpm_contains := @Verif.Tie.RpmRange.tie_rpm_contains.
+Definition C04_tie_semver_compareInt := @Verif.Tie.Semver.tie_semver_compareInt.
+Definition C04_tie_semver_compare := @Verif.Tie.Semver.tie_semver_compare.
+Definition C04_tie_shouldMergeConstraints_tie := @Verif.Tie.Vers.Code.shouldMergeConstraints_tie.
+Definition C04_tie_ensureVPrefix_tie := @Verif.Tie.Vers.Code.ensureVPrefix_tie.
+Definition C04_tie_parseConstraint_tie := @Verif.Tie.Vers.Constraints.parseConstraint_tie.
+Definition C04_tie_parseConstraint_finished := @Verif.Tie.Vers.Constraints.parseConstraint_finished.
+Definition C04_tie_parseConstraints_tie := @Verif.Tie.Vers.Constraints.parseConstraints_tie.
+Definition C04_tie_parseConstraints_finished := @Verif.Tie.Vers.Constraints.parseConstraints_finished.
+Definition C04_tie_parseConstraints_normalize := @Verif.Tie.Vers.Constraints.parseConstraints_normalize.
+Definition C04_tie_alternatingIntervals_no_panic := @Verif.Tie.Vers.CoreAlternating.alternatingIntervals_no_panic.
+Definition C04_tie_alternatingIntervals_total := @Verif.Tie.Vers.CoreAlternating.alternatingIntervals_total.
+Definition C04_tie_isPyPIPrerelease_tie := @Verif.Tie.Vers.CoreDispatch.isPyPIPrerelease_tie.
+Definition C04_tie_pypiContains_tie := @Verif.Tie.Vers.CoreDispatch.pypiContains_tie.
+Definition C04_tie_Contains_tie := @Verif.Tie.Vers.CoreDispatch.Contains_tie.
+Definition C04_tie_Contains_no_panic := @Verif.Tie.Vers.CoreDispatch.Contains_no_panic.
+Definition C04_tie_groupConstraintsIntoIntervals_no_panic := @Verif.Tie.Vers.CoreGroup.groupConstraintsIntoIntervals_no_panic.
+Definition C04_tie_groupConstraintsIntoIntervals_total := @Verif.Tie.Vers.CoreGroup.groupConstraintsIntoIntervals_total.
+Definition C04_tie_alternatingIntervals_tie := @Verif.Tie.Vers.CoreGroupTie.alternatingIntervals_tie.
+Definition C04_tie_alternatingIntervals_tie_finished := @Verif.Tie.Vers.CoreGroupTie.alternatingIntervals_tie_finished.
+Definition C04_tie_groupConstraintsIntoIntervals_tie := @Verif.Tie.Vers.CoreGroupTie.groupConstraintsIntoIntervals_tie.
+Definition C04_tie_groupConstraintsIntoIntervals_tie_finished := @Verif.Tie.Vers.CoreGroupTie.groupConstraintsIntoIntervals_tie_finished.
+Definition C04_tie_toRanges_tie := @Verif.Tie.Vers.CoreToRanges.toRanges_tie.
+Definition C04_tie_toRanges_no_panic := @Verif.Tie.Vers.CoreToRanges.toRanges_no_panic.
+Definition C04_tie_toRanges_normalize := @Verif.Tie.Vers.CoreToRanges.toRanges_normalize.
+Definition C04_tie_alpine_printer_tie := @Verif.Tie.Vers.Printers.alpine_printer_tie.
+Definition C04_tie_cargo_printer_tie := @Verif.Tie.Vers.Printers.cargo_printer_tie.
+Definition C04_tie_debian_printer_tie := @Verif.Tie.Vers.Printers.debian_printer_tie.
+Definition C04_tie_gem_printer_tie := @Verif.Tie.Vers.Printers.gem_printer_tie.
+Definition C04_tie_golang_printer_tie := @Verif.Tie.Vers.Printers.golang_printer_tie.
+Definition C04_tie_maven_printer_tie := @Verif.Tie.Vers.Printers.maven_printer_tie.
+Definition C04_tie_npm_printer_tie := @Verif.Tie.Vers.Printers.npm_printer_tie.
+Definition C04_tie_nuget_printer_tie := @Verif.Tie.Vers.Printers.nuget_printer_tie.
+Definition C04_tie_pypi_printer_tie := @Verif.Tie.Vers.Printers.pypi_printer_tie.
+Definition C04_tie_rpm_printer_tie := @Verif.Tie.Vers.Printers.rpm_printer_tie.
+Definition C04_tie_semver_printer_tie := @Verif.Tie.Vers.Printers.semver_printer_tie.
+Definition C04_tie_printers_keys := @Verif.Tie.Vers.Printers.printers_keys.
+Definition C04_tie_printers_match_style_table := @Verif.Tie.Vers.Printers.printers_match_style_table.
+Definition C04_tie_printers_on_model_interval := @Verif.Tie.Vers.Printers.printers_on_model_interval.
+Definition C04_tie_containsPrereleaseMarkers_tie := @Verif.Tie.Vers.Pypi.containsPrereleaseMarkers_tie.
+Definition C04_tie_containsPrereleaseMarkers_finished := @Verif.Tie.Vers.Pypi.containsPrereleaseMarkers_finished.
+Definition C04_tie_constraintsIncludePrerelease_finished := @Verif.Tie.Vers.Pypi.constraintsIncludePrerelease_finished.
+Definition C04_tie_constraintsIncludePrerelease_tie := @Verif.Tie.Vers.Pypi.constraintsIncludePrerelease_tie.
+Definition C04_tie_printers_texts := @Verif.Tie.Vers.Texts.printers_texts.
+Definition C04_tie_printers_texts_normalize := @Verif.Tie.Vers.Texts.printers_texts_normalize.
+Definition C04_tie_valid_tie := @Verif.Tie.Vers.Valid.valid_tie.
+Definition C04_tie_valid_finished := @Verif.Tie.Vers.Valid.valid_finished.
+Definition C04_tie_scheme_tie := @Verif.Tie.Vers.Valid.scheme_tie.
+Definition C04_tie_scheme_finished := @Verif.Tie.Vers.Valid.scheme_finished.
+Definition C04_ties_all := (C04_tie_Contains_no_panic, (C04_tie_Contains_tie, (C04_tie_alpine_VersionRange_Contains, (C04_tie_alpine_VersionRange_String, (C04_tie_alpine_compareInt, (C04_tie_alpine_compareLetters, (C04_tie_alpine_printer_tie, (C04_tie_alternatingIntervals_no_panic, (C04_tie_alternatingIntervals_tie, (C04_tie_alternatingIntervals_tie_finished, (C04_tie_alternatingIntervals_total, (C04_tie_cargo_caret, (C04_tie_cargo_compare, (C04_tie_cargo_compareInt, (C04_tie_cargo_printer_tie, (C04_tie_cargo_satisfiesConstraint, (C04_tie_cargo_tilde, (C04_tie_constraintsIncludePrerelease_finished, (C04_tie_constraintsIncludePrerelease_tie, (C04_tie_containsPrereleaseMarkers_finished, (C04_tie_containsPrereleaseMarkers_tie, (C04_tie_debian_compare, (C04_tie_debian_contains, (C04_tie_debian_printer_tie, (C04_tie_debian_satisfiesConstraint, (C04_tie_debian_satisfiesConstraint_model, (C04_tie_ensureVPrefix_tie, (C04_tie_gem_VersionRange_Contains, (C04_tie_gem_VersionRange_String, (C04_tie_gem_compareInt, (C04_tie_gem_compareSegments, (C04_tie_gem_printer_tie, (C04_tie_golang_VersionRange_Contains, (C04_tie_golang_VersionRange_String, (C04_tie_golang_Version_Compare, (C04_tie_golang_compareInt, (C04_tie_golang_printer_tie, (C04_tie_groupConstraintsIntoIntervals_no_panic, (C04_tie_groupConstraintsIntoIntervals_tie, (C04_tie_groupConstraintsIntoIntervals_tie_finished, (C04_tie_groupConstraintsIntoIntervals_total, (C04_tie_isPyPIPrerelease_tie, (C04_tie_maven_contains, (C04_tie_maven_printer_tie, (C04_tie_maven_satisfiesConstraint, (C04_tie_npm_compare, (C04_tie_npm_compareInt, (C04_tie_npm_printer_tie, (C04_tie_nuget_compare, (C04_tie_nuget_compareInt, (C04_tie_nuget_contains, (C04_tie_nuget_matches, (C04_tie_nuget_matches_model, (C04_tie_nuget_printer_tie, (C04_tie_parseConstraint_finished, (C04_tie_parseConstraint_tie, (C04_tie_parseConstraints_finished, (C04_tie_parseConstraints_normalize, (C04_tie_parseConstraints_tie, (C04_tie_printers_keys, (C04_tie_printers_match_style_table, (C04_tie_printers_on_model_interval, (C04_tie_printers_texts, (C04_tie_printers_texts_normalize, (C04_tie_pypiContains_tie, (C04_tie_pypi_VersionRange_Contains, (C04_tie_pypi_VersionRange_String, (C04_tie_pypi_Version_Compare, (C04_tie_pypi_compareDevReleases, (C04_tie_pypi_compareInt, (C04_tie_pypi_comparePostReleases, (C04_tie_pypi_comparePrereleases, (C04_tie_pypi_normalizePrereleaseType, (C04_tie_pypi_printer_tie, (C04_tie_rpm_compare, (C04_tie_rpm_contains, (C04_tie_rpm_printer_tie, (C04_tie_rpm_satisfiesRPMConstraint, (C04_tie_rpm_satisfiesRPMConstraint_model, (C04_tie_scheme_finished, (C04_tie_scheme_tie, (C04_tie_semver_compare, (C04_tie_semver_compareInt, (C04_tie_semver_printer_tie, (C04_tie_shouldMergeConstraints_tie, (C04_tie_toRanges_no_panic, (C04_tie_toRanges_normalize, (C04_tie_toRanges_tie, (C04_tie_valid_finished, C04_tie_valid_tie))))))))))))))))))))))))))))))))))))))))))))))))))))))))))))))))))))))))))))))))))))))))).
+Print Assumptions C04_ties_all.
 (* ====== ties to the source: END ====== *)
